@@ -157,3 +157,20 @@ Definition is_item_class (k : mclass) : bool :=
   | EAItemReplace | EAItemDelete | EAItemInsert | EAItemSwap | EAItemMove => true
   | _ => false
   end.
+
+(* ---- what a message carries is itself well formed (needed for the invariant
+   "every reachable running order is well formed") *)
+Definition story_elem_ok (c : xml) : bool :=
+  (match skey c with KBad => false | _ => true end) && wf_story c.
+Definition payload_wf (k : mclass) (m : xml) : bool :=
+  match base_of k m with
+  | None => false
+  | Some b =>
+    match k with
+    | StorySend => match convert_story_send b with Some s => wf_story s | None => false end
+    | StoryAppend | StoryInsert | StoryReplace => forallb wf_story (carried t_story b)
+    | EAStoryInsert | EAStoryReplace => forallb wf_story (ea_carried t_story b)
+    | MetaDataReplace => forallb story_elem_ok (kids_of b)
+    | _ => true
+    end
+  end.
